@@ -22,6 +22,16 @@ CHECKS = {
         design='§3 C17', note=TB_ASM),
 }
 
+CHECKS['C14'] = dict(
+    technique='static analysis: AST dataflow over every assignment into IMB_JOB storage; CFG must-precede rules for errno reset; switch exhaustiveness',
+    text='Decides, for all C code of all nine variant TUs and the common TUs, that library code writes only library-owned '
+         'fields of a caller-owned job (status, the documented CMAC bit-length scratch, fields declared reserved), that status '
+         'only ever receives IMB_STATUS enumerators or stage bits (INVALID_ARGS only on validation-failure paths), that every C '
+         'handler installed in a manager slot resets the manager error code before any other effect, that errors are recorded in '
+         'the manager in scope, and that error-string lookup is total. Not decided: that assembly kernels reached through untyped '
+         'pointers leave the descriptor alone (the typed object-level rule covers functions whose prototype has an IMB_JOB*).',
+    design='§3 C14', note=TB)
+
 NOT_APPLICABLE = {
     'C07': 'bounds of SIMD loads/stores relative to run-time lengths need relational numeric invariants over ~850 '
            'hand-written assembly functions; no sound static argument in reach (no frama-c; CSA/cppcheck do not see NASM)',
